@@ -1,0 +1,22 @@
+//go:build verif
+
+// Contracts checked by /verif (gocv). Comment-only; compiled only with -tags verif.
+
+package step_invariant
+
+// The outer grid (start, end, step>=1) is taken from opts; the child is evaluated once and its
+// vector replicated, except for range-vector expressions whose points keep their own timestamps.
+//@ func NewStepInvariantOperator
+//@   requires opts != nil && opts.Step.Milliseconds() >= 0
+//@   assigns nothing
+//@   ensures[C08] never-fails: result1 == nil && result0 != nil
+//@   ensures[C06,C07] fields-from-options: istype(result0, *step_invariant.stepInvariantOperator) && fresh(result0) &&
+//@       cast(result0, *step_invariant.stepInvariantOperator).next == next &&
+//@       cast(result0, *step_invariant.stepInvariantOperator).vectorPool == pool &&
+//@       cast(result0, *step_invariant.stepInvariantOperator).mint == opts.Start.UnixMilli() &&
+//@       cast(result0, *step_invariant.stepInvariantOperator).maxt == opts.End.UnixMilli() &&
+//@       cast(result0, *step_invariant.stepInvariantOperator).currentStep == opts.Start.UnixMilli() &&
+//@       cast(result0, *step_invariant.stepInvariantOperator).step == imax(opts.Step.Milliseconds(), 1) &&
+//@       cast(result0, *step_invariant.stepInvariantOperator).stepsBatch == stepsBatch
+//@   ensures[C06] caches-unless-range-vector: cast(result0, *step_invariant.stepInvariantOperator).cacheResult ==
+//@       !(istype(expr, *parser.MatrixSelector) || istype(expr, *parser.SubqueryExpr))
